@@ -48,7 +48,17 @@ def rules(ctx, db):
     for f in fin:
         bs = [bb for bb, t in calls(f, r"Mailbox::<A>::begin_stop$")]
         pre = [bb for bb, t in calls(f, r"Actor::pre_stop$")]
-        dr = [bb for bb, t in calls(f, r"^core::mem::drop$") if t.get("ga") and "Receiver" in t["ga"][0]]
+        # the release of the receiver: a plain drop of it or a consuming method of Receiver (close)
+        dr = [bb for bb, t in calls(f, r"^core::mem::drop$") if t.get("ga") and "Receiver" in t["ga"][0]] + \
+             [bb for bb, t in calls(f, r"^compio_actor::mailbox::receiver::Receiver::<A>::close$")]
+        # ... and it must empty the queue: a queued Call keeps its reply sender (and its caller) alive as long as any
+        # Mailbox clone exists, because the channel drops queued items only with its last sender
+        rel = [g for g in db.fns.values() if g.name == "compio_actor::mailbox::receiver::Receiver::<A>::close"]
+        drains = any(calls(g, r"^flume::Receiver::<T>::(drain|try_recv|try_iter)$") for g in rel) or \
+            any(calls(h, r"^flume::Receiver::<T>::(drain|try_recv|try_iter)$") for g in rel for h in db.succ_fns(g))
+        ctx.ob("R1", "release-empties-the-queue", bool(rel) and drains and bool(calls(f, r"Receiver::<A>::close$")),
+               "the actor closes its receiver through a method that drains the message queue, so calls still queued at "
+               "exit observe NoReply instead of hanging", f)
         post = [bb for bb, t in calls(f, r"Actor::post_stop$")]
         ok = all(len(x) == 1 for x in (bs, pre, dr, post)) and f.cfg.dominates(bs[0], pre[0]) and \
             f.cfg.dominates(pre[0], dr[0]) and f.cfg.dominates(dr[0], post[0])
@@ -121,6 +131,27 @@ def rules(ctx, db):
                   for bi, si, st in g.stmts() if st.get("r", {}).get("k") == "agg" and (st["r"].get("adt") or "").endswith("CallError")}
         ctx.ob("R2", "dropped-reply-becomes-NoReply", "NoReply" in kinds,
                "a reply sender dropped without an answer (actor stopped / failed) is reported as CallError::NoReply, not as a hang", f)
+    # process group routing: round-robin scan with skip-full / evict-closed
+    R("R4", "LOOP", "ProcessGroup::send: the scan hands the message back on every failing exit, evicts a closed member with an "
+      "order-preserving removal (the members after the cursor are exactly the ones not tried yet) and advances modulo the "
+      "current length")
+    pgs = [f for f in db.fns.values() if f.name == "compio_actor::process_group::ProcessGroup::<M>::send"]
+    if not pgs and any(f.id.startswith("compio_actor::process_group") for f in db.fns.values()):
+        ctx.missing("R4", "ProcessGroup::send")
+    for f in pgs:
+        rm = calls(f, r"^alloc::vec::Vec::<T, A>::remove$|Vec::<.*>::remove$")
+        reorder = calls(f, r"Vec::<.*>::(swap_remove|swap|reverse|rotate_left|rotate_right|sort\w*|dedup\w*)$|slice::<impl \[T\]>::(swap|reverse|rotate_left|rotate_right|sort\w*)$")
+        snd = calls(f, r"Broker::<M>::send$")
+        ctx.ob("R4", "evicts-closed-member-in-place", bool(rm) and bool(snd) and
+               all(guarded_by_variant(f, bb, r"Broker::<M>::send$", 1) is not None for bb, _ in rm),
+               "a member is removed only on the Err edge of its own send", f)
+        ctx.ob("R4", "scan-order-preserved", not reorder,
+               "no order-changing operation on the member list inside the scan (found: %s)" %
+               (", ".join(sorted({(t.get("fn") or "").rsplit("::", 1)[-1] for _, t in reorder})) or "none"), f)
+        rems = [bi for bi, si, st in f.stmts() if st.get("r", {}).get("k") == "bin" and st["r"].get("x", "").startswith("Rem")]
+        ctx.ob("R4", "index-wraps-modulo-length", len(rems) >= 2 and all(any(call_matches(ct, r"Vec::<.*>::len$") for _, ct in data_deps(f, op_place(st["r"]["ops"][1])["l"])[1])
+                                                                         for bi, si, st in f.stmts() if st.get("r", {}).get("k") == "bin" and st["r"].get("x", "").startswith("Rem") and op_place(st["r"]["ops"][1])),
+               "after a full member and after an eviction the cursor is reduced modulo the current member count", f)
     REG = r"^compio_actor::cluster::registry::Registry$"
     rs = db.methods(self_adt=REG, name="reserve", trait="")
     if not rs:
